@@ -1,6 +1,8 @@
 package xpm
 
 import (
+	"sync/atomic"
+	"time"
 	"context"
 	"fmt"
 	"sort"
@@ -77,6 +79,11 @@ type Tree struct {
 	// CancelAt k > 0: the k-th callback calls Cancel (the caller's Go context is cancelled while the tree is being asked)
 	CancelAt int
 	Cancel   func()
+	// CancelHold: the cancelling callback stays in the tree that long after Cancel (a run that gives up at once is then
+	// still inside the tree); Returned is set by the caller when Run has returned, Late counts callbacks after that
+	CancelHold time.Duration
+	Returned   atomic.Bool
+	Late       atomic.Int32
 }
 
 type EnvError struct{ K int }
@@ -87,8 +94,16 @@ func (t *Tree) record(op string, r Req) error {
 	t.mu.Lock()
 	defer t.mu.Unlock()
 	t.Calls = append(t.Calls, Call{Op: op, Req: r})
+	if t.Returned.Load() {
+		t.Late.Add(1)
+	}
 	if t.CancelAt > 0 && len(t.Calls) == t.CancelAt && t.Cancel != nil {
 		t.Cancel()
+		if t.CancelHold > 0 {
+			t.mu.Unlock()
+			time.Sleep(t.CancelHold)
+			t.mu.Lock()
+		}
 	}
 	if t.FailAt > 0 && len(t.Calls) == t.FailAt {
 		return &EnvError{K: t.FailAt}
